@@ -128,6 +128,29 @@ class Exec(StmtMixin):
             raise UnsupportedError(f"return value of {c.key}: {exc}")
         env = {"result": result}
         facts = []
+        if c.ghost_ensures:
+            # ghost bookkeeping has no code: the ghost cells named in `modifies` take the values the
+            # ghost_ensures clauses define (exactly what callers assume), then the real clauses are checked
+            for m in c.modifies:
+                last = m.split(".")[-1]
+                if m.startswith("ghost.") and any(m in t for t in c.ghost_ensures):
+                    st.ghost_set(m[6:], V.fresh(S.GHOST[m[6:]], "G_" + m[6:]))
+                elif last.startswith("g_") or (last in ("blocking", "cancel_on_blocking_job_failure") and any(("." + last) in t for t in c.ghost_ensures)):
+                    parts = m.split(".")
+                    if parts[0] in st.entry.locals:
+                        cur = st.entry.locals[parts[0]]
+                        for p in parts[1:-1]:
+                            cur = self.attr_read_pure(cur, p, st)
+                        cur = O.strip_opt(cur)
+                        rec, fty = S.lookup_field(cur.ty.name, last)
+                        st.heap.write(rec, last, fty, cur.t, V.fresh(fty, "gh_" + last))
+            for text in c.ghost_ensures:
+                try:
+                    st.assume(SpecEval(self, st, st.entry, env, facts).clause(text))
+                except SpecError as exc:
+                    raise UnsupportedError(f"ghost_ensures: {exc}")
+                st.assume(*facts)
+                del facts[:]
         for text in c.ensures:
             try:
                 g = SpecEval(self, st, st.entry, env, facts).clause(text)
